@@ -39,8 +39,8 @@ def run(chk):
     # (b) threads with shared read-only inputs; per-thread results equal the single-threaded run
     texts = ["HTTP://u@h:8/a/../b?x=1&y=%41#f", "../c/./d?q", "//[::1]/x?k", "a/b c", "s:a/..//b", "", "/.//x"]
     texts = [enc_s(t) for t in texts] + parsesuite.random_uris(chk.rng, 40 if q else 600)
-    bases = [enc_s("s://h/a/b?q"), enc_s("S://U@[::1]:8/%41/./b/")]
-    reqs = ["thr %d %d %s %s" % (8 if i % 3 else 16, 150 if q else 1500, t, bases[i % 2]) for i, t in enumerate(texts)]
+    bases = [enc_s("s://h/a/b?q"), enc_s("S://U@[::1]:8/%41/./b/"), enc_s("http://[v7.Fe:Ed]/x/y"), enc_s("s://[2001:DB8::A]/%7e")]
+    reqs = ["thr %d %d %s %s" % (8 if i % 3 else 16, 150 if q else 1500, t, bases[i % 4]) for i, t in enumerate(texts)]
     digests = {}
     nontrivial = set()
     for fl, exe in exes.items():
@@ -48,6 +48,8 @@ def run(chk):
         out = lib.run_lines(exe, sel, chunks=4, env={"TSAN_OPTIONS": "exitcode=66 halt_on_error=1"})
         chk.cov["evaluations"] += len(out)
         for rq, o in zip(sel, out):
+            if "!write-to-shared-read-only-input" in o:
+                chk.violation("the library wrote into an input that the threads share read-only (the reference text, the base text or the base URI structure; the page was write-protected)", {"request": rq, "build": fl, "impl": o}); continue
             if not o.startswith("thr digest="):
                 chk.violation("data race reported by ThreadSanitizer, or crash, while threads shared read-only inputs: " + o[:300], {"request": rq, "build": fl, "impl": o}); continue
             kv = dict(x.split("=") for x in o.split()[1:])
